@@ -1,6 +1,8 @@
 //! C19 — feature configurations agree: no_std, alloc and std builds give the same results.
 #[path = "../../../cfgprobe/src/transcript.rs"]
 pub mod transcript;
+#[path = "../../../cfgprobe/src/transcript_alloc.rs"]
+pub mod transcript_alloc;
 #[path = "../../../nostdprobe/src/probe_core.rs"]
 pub mod probe_core;
 
@@ -11,12 +13,20 @@ use proptest::prelude::*;
 use serde_json::{json, Value};
 use std::path::Path;
 use std::process::Command;
-use transcript::{PCase, PZone};
+use transcript::{ARes, PCase, PZone};
 
 const CONFIGS: [(&str, &[&str]); 3] = [("none", &[]), ("alloc", &["--features", "alloc"]), ("std", &["--features", "std"])];
 
 fn to_pzone(z: &MZone) -> PZone {
     serde_json::from_value(serde_json::to_value(z).unwrap()).expect("model zone and probe zone share their JSON form")
+}
+
+/// A probe case that carries nothing but one TZ-value resolution (used by C20 to run its cases in the alloc-only configuration).
+pub fn resolution_only_case(r: &crate::props::c20::ResCase) -> PCase {
+    use crate::model::{MLtt, MTrailer};
+    let z = MZone { trans: vec![], types: vec![MLtt::new(0, false, None)], leaps: vec![], trailer: MTrailer::None };
+    let files = r.vfs.iter().map(|(p, c)| (p.clone(), if matches!(c, crate::props::c20::Content::Denied) { None } else { Some(crate::props::c20::bytes_of(c)) })).collect();
+    PCase { zone: to_pzone(&z), instants: vec![], civils: vec![], nanos: vec![], buf_len: 0, ares: vec![ARes { tz: r.tz.clone(), dirs: r.dirs.clone(), files }], afiles: vec![] }
 }
 
 pub fn arb_case() -> SBoxedStrategy<PCase> {
@@ -26,8 +36,15 @@ pub fn arb_case() -> SBoxedStrategy<PCase> {
         proptest::collection::vec(prop_oneof![3 => gens::arb_valid_fields(), 1 => gens::arb_fields_perturbed()], 1..5),
         proptest::collection::vec(prop_oneof![2 => any::<i128>().prop_map(|v| v / 1_000_000), 2 => (-9_300_000_000i128..9_300_000_000, prop_oneof![Just(0i128), Just(1i128), Just(999_999_999i128), 0i128..1_000_000_000]).prop_map(|(k, r)| k * 1_000_000_000 + r)], 0..4),
         0usize..4,
+        prop_oneof![2 => Just(vec![]), 1 => proptest::collection::vec(crate::props::c20::arb_case(), 1..3)],
+        prop_oneof![2 => Just(vec![]), 1 => proptest::collection::vec((crate::props::c08::arb_file_zone(), 1u8..=3, proptest::collection::vec(any::<u32>(), 8), prop_oneof![2 => Just(crate::props::c08::Defect::None), 1 => crate::props::c08::arb_defect()]), 1..3)],
     )
-        .prop_map(|(z, mut instants, civils, nanos, buf_len)| {
+        .prop_map(|(z, mut instants, civils, nanos, buf_len, res, files)| {
+            let ares: Vec<ARes> = res
+                .iter()
+                .map(|r| ARes { tz: r.tz.clone(), dirs: r.dirs.clone(), files: r.vfs.iter().map(|(p, c)| (p.clone(), if matches!(c, crate::props::c20::Content::Denied) { None } else { Some(crate::props::c20::bytes_of(c)) })).collect() })
+                .collect();
+            let afiles: Vec<Vec<u8>> = files.into_iter().filter_map(|(zone, version, ent, defect)| crate::props::c08::bytes_for(&crate::props::c08::FileCase { zone, version, ent, defect })).collect();
             // instants at the zone's own transitions as well
             for t in z.trans.iter().take(3) {
                 instants.push((t.0, 0));
@@ -54,12 +71,12 @@ pub fn arb_case() -> SBoxedStrategy<PCase> {
             // the first / last years of the calendar (a DST rule cannot be evaluated there: the search is refused, possibly after a partial result)
             cv.push((i32::MIN + (buf_len as i32 % 3), 6, 1, 12, 0, 0, 0));
             cv.push((i32::MAX - (buf_len as i32 % 3), 6, 1, 12, 0, 0, 0));
-            PCase { zone: to_pzone(&z), instants, civils: cv, nanos: nanos.iter().map(|n| n.to_string()).collect(), buf_len }
+            PCase { zone: to_pzone(&z), instants, civils: cv, nanos: nanos.iter().map(|n| n.to_string()).collect(), buf_len, ares, afiles }
         })
         .sboxed()
 }
 
-fn build_probe(cfg: &str, extra: &[&str]) -> Result<std::path::PathBuf, String> {
+pub fn build_probe(cfg: &str, extra: &[&str]) -> Result<std::path::PathBuf, String> {
     let verif_buf = crate::run::verif_dir();
     let verif = verif_buf.as_path();
     let tdir = verif.join(format!("target/cfgprobe-{cfg}"));
@@ -80,7 +97,7 @@ fn build_probe(cfg: &str, extra: &[&str]) -> Result<std::path::PathBuf, String> 
     Ok(tdir.join("release/cfgprobe"))
 }
 
-fn run_probe(bin: &Path, corpus: &Path) -> Result<Vec<String>, String> {
+pub fn run_probe(bin: &Path, corpus: &Path) -> Result<Vec<String>, String> {
     let out = Command::new(bin).arg(corpus).output().map_err(|e| format!("cannot run {bin:?}: {e}"))?;
     if !out.status.success() {
         return Err(format!("probe {bin:?} failed: {}", String::from_utf8_lossy(&out.stderr).chars().take(400).collect::<String>()));
@@ -93,7 +110,8 @@ fn compare(cases: &[PCase], st: &mut Stats) -> Result<(), Failure> {
     let verif = verif_buf.as_path();
     let corpus = verif.join(format!("build/c19-corpus-{}.json", std::process::id()));
     std::fs::write(&corpus, serde_json::to_string(cases).unwrap()).map_err(|e| Failure::new("infra", e.to_string(), json!(null)))?;
-    let own: Vec<String> = cases.iter().map(transcript::transcript).collect();
+    // harness transcript = base part (API without allocation) + "\t#A" + alloc tier (API that needs `alloc`); the feature-less probe prints the base part only
+    let own: Vec<String> = cases.iter().map(|c| format!("{}\t#A{}", transcript::transcript(c), transcript_alloc::transcript_alloc(c))).collect();
     let mut all: Vec<(&str, Vec<String>)> = vec![("harness(std)", own)];
     for (cfg, extra) in CONFIGS {
         let bin = match build_probe(cfg, extra) {
@@ -118,8 +136,9 @@ fn compare(cases: &[PCase], st: &mut Stats) -> Result<(), Failure> {
     for (i, c) in cases.iter().enumerate() {
         st.eval(3);
         for k in 1..all.len() {
-            if all[k].1[i] != all[0].1[i] {
-                let (a, b) = (&all[0].1[i], &all[k].1[i]);
+            let reference: &str = if all[k].0 == "none" { all[0].1[i].split("\t#A").next().unwrap_or("") } else { &all[0].1[i] };
+            if all[k].1[i] != reference {
+                let (a, b) = (&reference.to_string(), &all[k].1[i]);
                 let pos = a.bytes().zip(b.bytes()).position(|(x, y)| x != y).unwrap_or(a.len().min(b.len()));
                 let lo = pos.saturating_sub(60);
                 return Err(Failure::new(
@@ -128,6 +147,9 @@ fn compare(cases: &[PCase], st: &mut Stats) -> Result<(), Failure> {
                     c.clone(),
                 ));
             }
+        }
+        if !c.ares.is_empty() || !c.afiles.is_empty() {
+            st.class("cases_with_alloc_tier_operations");
         }
         if all[0].1[i].contains("zone ok") {
             st.nontrivial(&all[0].1[i]);
@@ -295,6 +317,8 @@ fn us_family_case(k: usize) -> PCase {
         civils: vec![(y as i32, 3, 14, 2, 30, 0, 0), (y as i32, 3, 14, 1, 59, 59, 0), (y as i32, 3, 14, 3, 0, 0, 0), (y as i32, 11, 7, 1, 30, 0, 0), (y as i32, 11, 7, 0, 59, 59, 0), (y as i32, 11, 7, 2, 0, 0, 0)],
         nanos: vec![],
         buf_len: 3,
+        ares: vec![],
+        afiles: vec![],
     }
 }
 
@@ -328,7 +352,7 @@ fn defective(mut c: PCase, kind: u32) -> PCase {
 pub fn run(ctx: &Ctx) -> Outcome {
     let mut out = Outcome::new(
         "One generated corpus of cases (zone of any shape incl. leap tables, zic-aligned tables and i64-wide times; instants from the unix-time mixture plus the zone's own transitions -1/0; civil times valid / single-defect / shown at the transitions; total-nanosecond counts; buffer lengths 0..3) is run through a probe binary built three times against tz-rs with features {}, {alloc}, {alloc,std} \
-         (the probe uses only API that exists without `alloc`: TimeZoneRef, LocalTimeType, rule types, UtcDateTime, DateTime incl. find_n and projection, Display - also with width / precision / fill specs - through a fixed-size fmt::Write buffer) and through the same transcript function inside the std harness; the per-case transcripts must be identical. \
+         (the probe uses only API that exists without `alloc`: TimeZoneRef, LocalTimeType, rule types, UtcDateTime, DateTime incl. find_n and projection, Display - also with width / precision / fill specs - through a fixed-size fmt::Write buffer) and through the same transcript function inside the std harness; the per-case transcripts must be identical. One case in three also carries alloc-tier operations - TZ values resolved through TimeZoneSettings over an in-memory file system (C20's generator: paths opened, in order, and the result) and generated TZif files (C08's generator, with and without a defect) decoded with from_tz_data - whose transcripts must agree between the {alloc} build, the {alloc,std} build and the harness. \
          One case in eight carries a zone defect (all configurations must refuse alike); four cases in sixteen are zones sharing rule days/times but not offsets, searched back to back. A configuration that does not build while the default one does is a violation (replay = build log). \
          In addition the same probe logic (nostdprobe/src/probe_core.rs: 6 zones incl. table+rule, negative DST, leap table, parameterised offsets; instants, searches through find_n with fresh / reused buffers incl. the buffer contents after a refusal, total-nanosecond counts, Display with width/precision) runs inside an allocator-free #![no_std] static library linked into a C program, on generated records, and must print what the std harness prints. Non-trivial: cases whose zone is accepted (lookups, searches and renderings actually executed).",
     );
